@@ -32,9 +32,18 @@ def twin_text(enc):
     return TWIN_TEXT.get(enc, ['é€', '😀 twin', '你'])
 
 
-def enc_real(enc, items, twin=None):
-    r = (drive_plain([rs.data.encode(enc)], items, twin=twin_text(enc), twin_mode=twin) if twin
-         else drive_plain([rs.data.encode(enc)], items))
+SPELLINGS = {'utf8': ['utf8', 'UTF-8', 'utf_8', 'U8', 'utf-8'], 'utf-16': ['utf-16', 'utf16', 'UTF_16', 'U16', 'UTF-16'],
+             'utf-32': ['utf-32', 'utf32', 'UTF_32', 'U32'], 'latin-1': ['latin-1', 'latin1', 'iso-8859-1', 'L1', 'latin_1', 'iso8859-1']}
+
+
+def sp(case):
+    """the spelling of the encoding name handed to the real code (every alias Python's codec registry accepts names the same codec)"""
+    return case.get('spell', case['enc'])
+
+
+def enc_real(enc, items, twin=None, spell=None):
+    r = (drive_plain([rs.data.encode(spell or enc)], items, twin=twin_text(enc), twin_mode=twin) if twin
+         else drive_plain([rs.data.encode(spell or enc)], items))
     out = [bytes(x) for s in r['steps'] for x in s] + [bytes(x) for x in r['fin']]
     return out, r['end']
 
@@ -53,6 +62,10 @@ def cases(tier, rng):
             for r in range(0, maxr + 1):
                 for cs in itertools.combinations(range(0, n + 1), r):
                     yield {'enc': enc, 'items': items, 'cuts': list(cs)}
+    for enc in ENCS:
+        alpha = LATIN if enc == 'latin-1' else ALPHA
+        for spell in SPELLINGS[enc]:
+            yield {'enc': enc, 'spell': spell, 'items': ['a' + alpha[4], alpha[8 % len(alpha)], ''], 'cuts': [1, 3]}
     for enc in ('utf8', 'utf-16', 'utf-32'):
         for comp in (None, 'gzip', 'zstd'):
             yield {'kind': 'jsonfile', 'enc': enc, 'compression': comp, 'items': ['a', 'é😀', ''], 'cuts': []}
@@ -79,6 +92,8 @@ def cases(tier, rng):
         cuts = sorted(rng.randrange(0, len(data) + 1) for _ in range(rng.choice([0, 1, 2, 3, 6, 12])))
         if rng.random() < 0.15:
             yield {'enc': enc, 'items': items, 'cuts': cuts, 'twin': rng.choice(['before', 'mid'])}
+        if rng.random() < 0.25:
+            yield {'enc': enc, 'spell': rng.choice(SPELLINGS[enc]), 'items': items, 'cuts': cuts}
         yield {'enc': enc, 'items': items, 'cuts': cuts}
 
 
@@ -94,7 +109,7 @@ def _jsonfile_real(case):
     os.close(fd)
     try:
         err = []
-        rx.from_(items).pipe(rsjson.dump_to_file(path, encoding=case['enc'], compression=case['compression'])).subscribe(
+        rx.from_(items).pipe(rsjson.dump_to_file(path, encoding=sp(case), compression=case['compression'])).subscribe(
             on_error=err.append)
         raw = open(path, 'rb').read()
         if case['compression'] == 'gzip':
@@ -102,7 +117,7 @@ def _jsonfile_real(case):
         elif case['compression'] == 'zstd':
             raw = zstandard.ZstdDecompressor().decompressobj().decompress(raw)
         back = []
-        rsjson.load_from_file(path, encoding=case['enc'], compression=case['compression']).subscribe(
+        rsjson.load_from_file(path, encoding=sp(case), compression=case['compression']).subscribe(
             on_next=back.append, on_error=err.append)
     finally:
         os.unlink(path)
@@ -122,10 +137,10 @@ def _json_lines(case):
 def _resub_real(case):
     """the same decode observable subscribed twice: first a truncated stream, disposed without completion"""
     from rx.subject import Subject
-    encd, _ = enc_real(case['enc'], case['items'])
+    encd, _ = enc_real(case['enc'], case['items'], spell=sp(case))
     data = b''.join(encd)
     src = Subject()
-    obs = src.pipe(rs.data.decode(case['enc']))
+    obs = src.pipe(rs.data.decode(sp(case)))
     first = []
     d = obs.subscribe(on_next=first.append, on_error=lambda e: first.append('error'))
     try:
@@ -150,15 +165,15 @@ def real(case):
         return _jsonfile_real(case)
     if case.get('kind') == 'resub':
         return _resub_real(case)
-    encd, end1 = enc_real(case['enc'], case['items'], twin=case.get('twin'))
+    encd, end1 = enc_real(case['enc'], case['items'], twin=case.get('twin'), spell=sp(case))
     data = b''.join(encd)
     chunks = cut(data, case['cuts'])
     if case.get('twin'):
         # the same decode operator object applied to a second source that is live at the same time, its bytes cut one by one
         tdata = b''.join(enc_real(case['enc'], twin_text(case['enc']))[0])
-        r = drive_plain([rs.data.decode(case['enc'])], chunks, twin=[tdata[i:i + 1] for i in range(len(tdata))], twin_mode=case['twin'])
+        r = drive_plain([rs.data.decode(sp(case))], chunks, twin=[tdata[i:i + 1] for i in range(len(tdata))], twin_mode=case['twin'])
     else:
-        r = drive_plain([rs.data.decode(case['enc'])], chunks)
+        r = drive_plain([rs.data.decode(sp(case))], chunks)
     return {'encoded': [list(b) for b in encd], 'enc_end': end1,
             'decoded': [x for s in r['steps'] for x in s] + list(r['fin']), 'end': r['end'],
             'n_out': [len(s) for s in r['steps']] + [len(r['fin'])]}
